@@ -85,6 +85,24 @@ MonotoneUpToCutoff == (Done /\ Family = "acc") =>
         LET t2 == TauLayer(ScaleA(inp.a, m), inp.L, NC, NW, j)[w]
         IN  t2 >= out.tau[j][w] \/ t2 >= Cut
 
+\* C03: optical depth is additive over contributions (transmittances multiply) ...
+OnlyContrib(a, cc) == [c \in 1..NC |-> [k \in Layers |-> [w \in 1..NW |-> IF c = cc THEN a[c][k][w] ELSE 0]]]
+RECURSIVE SumOverContribs(_, _, _, _)
+SumOverContribs(a, L, j, c) ==
+    IF c = 0 THEN [w \in 1..NW |-> 0]
+    ELSE LET rest == SumOverContribs(a, L, j, c - 1)
+             one  == TauFull(OnlyContrib(a, c), L, NC, NW, j)
+         IN  [w \in 1..NW |-> rest[w] + one[w]]
+ProductRule == (Done /\ Family = "acc") =>
+    \A j \in Layers : out.full[j] = SumOverContribs(inp.a, inp.L, j, NC)
+\* ... and does not depend on the order of the contribution list (up to the cut-off)
+Reversed(a) == [c \in 1..NC |-> a[NC + 1 - c]]
+OrderIndependentUpToCutoff == (Done /\ Family = "acc") =>
+    \A j \in Layers :
+        /\ TauFull(Reversed(inp.a), inp.L, NC, NW, j) = out.full[j]
+        /\ LET t2 == TauLayer(Reversed(inp.a), inp.L, NC, NW, j)
+           IN  \A w \in 1..NW : t2[w] = out.tau[j][w] \/ (t2[w] >= Cut /\ out.tau[j][w] >= Cut)
+
 \* ---------------------------------------------------------------- abs clauses
 DepthLowerBound == (Done /\ Family = "abs") => RLe(Bare(inp.r, inp.rs), out)
 DepthUpperBound == (Done /\ Family = "abs") => RLe(out, Opaque(inp.r, inp.rs))
